@@ -62,6 +62,11 @@ def configs(tier):
         for shapes in markets_for(n, tier):
             out.append({'long_only': long_only, 'weights': list(w), 'shapes': list(shapes), 'tier': tier,
                         'times': times, 'lengths': lengths, 'params': params[long_only], 'fees': fees, 'cashes': cashes})
+    # "for any market data": a symbol held by two data sources, the first-listed one starting inside the session
+    for k in (4, 6) if tier == 'quick' else (3, 4, 5, 6, 8):
+        for long_only, w, shapes in ((True, ('0.6', '0.4'), ('rising', 'falling')), (False, ('1', '-0.7'), ('zigzag', 'gapdown'))):
+            out.append({'long_only': long_only, 'weights': list(w), 'shapes': list(shapes), 'tier': tier, 'times': times,
+                        'lengths': lengths, 'params': params[long_only], 'fees': fees[-1:], 'cashes': cashes[:1], 'overlap': k})
     return out
 
 
@@ -114,9 +119,19 @@ def session_cfgs(item):
     yield cfg
 
 
+def market_from(shapes, n, overlap=None):
+    spec = {s: (shape, BASES[s]) for s, shape in zip(sl.SYMS[:n], shapes)}
+    if overlap:
+        # the first symbol is held by TWO data sources: the first-listed one starts `overlap` days late (a young
+        # series), the second-listed one (a long proxy at other prices) answers only until then
+        s0 = sl.SYMS[0]
+        spec[s0] = (shapes[0], BASES[s0], overlap)
+        spec[s0 + '@2'] = ('zigzag', '77.31')
+    return sl.make_market(MARKET_DAYS, spec)
+
+
 def market_of(item):
-    n = len(item['weights'])
-    return sl.make_market(MARKET_DAYS, {s: (shape, BASES[s]) for s, shape in zip(sl.SYMS[:n], item['shapes'])})
+    return market_from(item['shapes'], len(item['weights']), item.get('overlap'))
 
 
 def compare(cfg, market, handler):
@@ -240,7 +255,7 @@ def per_market(item):
                 nontriv += 1
                 outs.add((cfg['rebalance'], cfg['weekday'], cfg['start'][:10], nf))
             for f in fails:
-                f['case'] = {'cfg': cfg, 'shapes': item['shapes']}
+                f['case'] = {'cfg': cfg, 'shapes': item['shapes'], 'overlap': item.get('overlap')}
                 viols.append(f)
             if len(viols) > 8:
                 break
@@ -280,7 +295,7 @@ def replay(case):
     try:
         cfg = case['cfg']
         n = len(cfg['assets'])
-        market = sl.make_market(MARKET_DAYS, {s: (shape, BASES[s]) for s, shape in zip(sl.SYMS[:n], case['shapes'])})
+        market = market_from(case['shapes'], n, case.get('overlap'))
         sl.write_market(d, market)
         handler, _ = sl.load_handler(d, market)
         fails, _, _ = compare(cfg, market, handler)
